@@ -338,7 +338,7 @@ class C07(PropertyCheck):
                     yield {"tag": f"rect_{name}", "kind": "scheme", "source": "rect", "scheme": name,
                            "args": args, "signal_scale": ss, "mesh_shape": [mh, mw], **frame}
         # 2. Delaunay vertex sets x all nine schemes
-        for _ in range(14 if quick else 120):
+        for _ in range(30 if quick else 200):
             n = rng.randint(4, 9 if quick else 16)
             pts = self._delaunay_points(rng, n)
             frame = self._data_frame(rng, big=True)
@@ -347,7 +347,7 @@ class C07(PropertyCheck):
                 yield {"tag": f"delaunay_{name}", "kind": "scheme", "source": "delaunay", "scheme": name,
                        "args": args, "signal_scale": ss, "points": pts, **frame}
         # 3. mock linear objects: dyadic tables (exact comparison), odd graphs, split tables
-        for _ in range(60 if quick else 500):
+        for _ in range(160 if quick else 1200):
             n = rng.randint(1, 8)
             r = rng.random()
             sym = r < 0.7
@@ -357,7 +357,7 @@ class C07(PropertyCheck):
             yield {"tag": f"mock_{'sym' if sym else 'asym'}_{name}", "kind": "scheme", "source": "mock",
                    "scheme": name, "args": args, "signal_scale": ss, "mock": mock, "symmetric": sym}
         # 4. the util functions called directly (incl. reg_split_from exception / stale-j paths, signals)
-        for _ in range(40 if quick else 300):
+        for _ in range(100 if quick else 800):
             n = rng.randint(1, 6)
             fn = rng.choice(["reg_split_from", "reg_split_from", "pixel_splitted", "constant", "weighted",
                              "constant_zeroth", "zeroth", "brightness_zeroth"])
@@ -375,7 +375,7 @@ class C07(PropertyCheck):
                 c["weights"] = qlist([gen.dyadic(rng, -3, 3, 3) for _ in range(n)])  # signed: squares anyway
             yield c
         # 5. pixel signals: real mappers (integer scale -> exact model) and direct util calls
-        for _ in range(12 if quick else 100):
+        for _ in range(24 if quick else 200):
             frame = self._data_frame(rng, big=True)
             scale = rng.choice([1, 1, 2, 3])
             if rng.random() < 0.5:
@@ -385,7 +385,7 @@ class C07(PropertyCheck):
                 yield {"tag": "signals_delaunay", "kind": "signals", "source": "delaunay",
                        "points": self._delaunay_points(rng, rng.randint(4, 9)), "signal_scale": q(scale), **frame}
         # 6. block-diagonal assembly over linear objects
-        for _ in range(40 if quick else 300):
+        for _ in range(80 if quick else 600):
             k = rng.randint(1, 4)
             objs = []
             for _ in range(k):
@@ -553,6 +553,8 @@ class C07(PropertyCheck):
     # ------------------------------------------------------------------ model
     def model_requests(self, case, obs):
         kind = case["kind"]
+        if isinstance(obs, dict) and "err" in obs and "inputs" not in obs and kind != "util":
+            return []  # undocumented exception in the implementation: nothing to compare, the oracle reports it
         if kind == "scheme":
             name = case["scheme"]
             inp = obs["inputs"]
@@ -665,6 +667,8 @@ class C07(PropertyCheck):
     # ------------------------------------------------------------------ oracle (independent of the model)
     def oracle(self, case, obs):
         kind = case["kind"]
+        if isinstance(obs, dict) and "err" in obs and "inputs" not in obs and kind != "util":
+            return False, f"implementation raised {obs.get('err')}: {obs.get('msg', '')}"
         if kind == "scheme":
             return self._oracle_scheme(case, obs)
         if kind == "util":
@@ -807,6 +811,10 @@ class C07(PropertyCheck):
                     return False, f"cross-point row {k} of the mapper repeats a pixel index or is out of range"
             if len(sp["sizes"]) != 4 * n:
                 return False, "split-cross tables do not have 4 rows per pixel"
+            # hypotheses of C07.split_scheme_spec (SplitWF): rows non-empty and not full
+            width = len(sp["weights"][0]) if sp["weights"] else 0
+            if real_mesh and any(not (1 <= sz < width) for sz in sp["sizes"]):
+                return False, "a cross-point row of the mapper is empty or fills the whole array width"
         if name not in KERNEL_SCHEMES:
             for x in test_vectors(n * 31 + len(pairs), n):
                 got = quad(H, x)
